@@ -28,6 +28,12 @@ func (e *retryBaseErr) Error() string { return fmt.Sprintf("base-%d", e.id) }
 
 type retryOverrun struct{}
 
+// retryAbort is panicked out of value() when the closure keeps calling it although the script is exhausted, the context is
+// cancelled and a fatal error was returned.
+type retryAbort struct{}
+
+const retryOverrunLimit = 64
+
 func (retryOverrun) Error() string { return "script overrun" }
 
 // retryCtx is a context whose cancellation the harness controls synchronously and whose error is a unique value, so that
@@ -134,7 +140,7 @@ type retryCase struct {
 
 type retryRun struct {
 	calls     int     // value() calls that consumed an outcome
-	overrun   bool    // value() was called beyond the script
+	overrun   int     // value() calls beyond the script
 	waits     [][]int // rate, c, returned d, ctx done at entry of waitDuration (-1: waitDuration not reached)
 	cancelled bool
 }
@@ -195,7 +201,14 @@ func retryK1Case(h *hctx, id int) {
 			h.line("MONITOR C18 value() started after the context was cancelled case=k%d call=%d", id, run.calls+1)
 		}
 		if run.calls >= len(script) {
-			run.overrun = true
+			// beyond the script: stop the loop by every means the closure should honour, and bail out if it honours none
+			run.overrun++
+			if run.overrun > retryOverrunLimit {
+				panic(retryAbort{})
+			}
+			if !cs.nilCtx {
+				rc.cancel(ctxErr)
+			}
 			return nil, FatalError(retryOverrun{})
 		}
 		o := script[run.calls]
@@ -222,7 +235,11 @@ func retryK1Case(h *hctx, id int) {
 			defer func() {
 				if r := recover(); r != nil {
 					panicked = true
-					h.line("MONITOR C18 the closure panicked: %v case=k%d%s", r, id, sub)
+					if _, ok := r.(retryAbort); ok {
+						h.line("MONITOR C18 the closure keeps calling value() after a fatal error and cancellation case=k%d%s", id, sub)
+					} else {
+						h.line("MONITOR C18 the closure panicked: %v case=k%d%s", r, id, sub)
+					}
 				}
 			}()
 			res, err = fn()
@@ -401,13 +418,23 @@ func retryCallCalc(h *hctx, rate time.Duration, c uint32) (d time.Duration, ok b
 	return calcExponentialRetry(rate, c), true
 }
 
-func retryTimed(limit time.Duration, f func()) (time.Duration, bool) {
-	done := make(chan struct{})
+// retryTimed runs f in its own goroutine; ok = it returned normally within the limit (a panic of f is reported here).
+func retryTimed(h *hctx, what string, limit time.Duration, f func()) (time.Duration, bool) {
+	done := make(chan bool, 1)
 	t0 := time.Now()
-	go func() { defer close(done); f() }()
+	go func() {
+		defer func() {
+			if r := recover(); r != nil {
+				h.line("MONITOR C18 %s panicked: %v", what, r)
+				done <- false
+			}
+		}()
+		f()
+		done <- true
+	}()
 	select {
-	case <-done:
-		return time.Since(t0), true
+	case ok := <-done:
+		return time.Since(t0), ok
 	case <-time.After(limit):
 		return time.Since(t0), false
 	}
@@ -489,7 +516,7 @@ func retryFScenario(h *hctx) {
 	for _, d := range []time.Duration{0, -1, -123124, math.MinInt64} {
 		for _, ctx := range []context.Context{nil, context.Background()} {
 			d, ctx := d, ctx
-			if el, ok := retryTimed(slack, func() { waitDuration(ctx, d) }); !ok || el > time.Second {
+			if el, ok := retryTimed(h, "waitDuration(d <= 0)", slack, func() { waitDuration(ctx, d) }); !ok || el > time.Second {
 				h.line("MONITOR C18 waitDuration(d=%d <= 0) did not return at once (%v)", int64(d), el)
 			}
 			h.count("wait_nonpositive", 1)
@@ -498,7 +525,7 @@ func retryFScenario(h *hctx) {
 	{
 		ctx, cancel := context.WithCancel(context.Background())
 		cancel()
-		if el, ok := retryTimed(slack, func() { waitDuration(ctx, time.Hour) }); !ok || el > time.Second {
+		if el, ok := retryTimed(h, "waitDuration(1h)", slack, func() { waitDuration(ctx, time.Hour) }); !ok || el > time.Second {
 			h.line("MONITOR C18 waitDuration with a cancelled context did not return promptly (%v)", el)
 		}
 		h.count("wait_cancelled_before", 1)
@@ -508,7 +535,7 @@ func retryFScenario(h *hctx) {
 		var cancelledAt time.Time
 		go func() { time.Sleep(15 * time.Millisecond); cancelledAt = time.Now(); cancel() }()
 		t0 := time.Now()
-		el, ok := retryTimed(slack, func() { waitDuration(ctx, time.Hour) })
+		el, ok := retryTimed(h, "waitDuration(1h)", slack, func() { waitDuration(ctx, time.Hour) })
 		if !ok {
 			h.line("MONITOR C18 waitDuration was not cut short by cancellation (%v)", el)
 		} else if ctx.Err() == nil || t0.Add(el).Before(cancelledAt) {
@@ -519,7 +546,7 @@ func retryFScenario(h *hctx) {
 	}
 	{
 		d := 25 * time.Millisecond
-		el, ok := retryTimed(slack, func() { waitDuration(context.Background(), d) })
+		el, ok := retryTimed(h, "waitDuration(25ms)", slack, func() { waitDuration(context.Background(), d) })
 		if !ok {
 			h.line("MONITOR C18 waitDuration(25ms) did not return (%v)", el)
 		} else if el < d {
@@ -551,7 +578,7 @@ func retryFScenario(h *hctx) {
 		var res interface{}
 		var err error
 		go func() { time.Sleep(30 * time.Millisecond); close(cancelled); cancel() }()
-		el, ok := retryTimed(slack, func() { res, err = fn() })
+		el, ok := retryTimed(h, "closure with 1h slots", slack, func() { res, err = fn() })
 		switch {
 		case !ok:
 			h.line("MONITOR C18 a closure waiting for 1h slots did not return after cancellation (%v)", el)
@@ -588,9 +615,13 @@ func retryRealCase(h *hctx, id int) {
 	}
 	ctx, cancel := context.WithCancel(context.Background())
 	defer cancel()
-	calls := 0
+	calls, overrun := 0, 0
 	fn := ExponentialRetry(ctx, time.Microsecond, func() (interface{}, error) {
 		if calls >= len(script) {
+			if overrun++; overrun > retryOverrunLimit {
+				panic(retryAbort{})
+			}
+			cancel()
 			return nil, FatalError(retryOverrun{})
 		}
 		o := script[calls]
@@ -605,7 +636,7 @@ func retryRealCase(h *hctx, id int) {
 	}
 	var res interface{}
 	var err error
-	if el, ok := retryTimed(20*time.Second, func() { res, err = fn() }); !ok {
+	if el, ok := retryTimed(h, "closure with real seams", 20*time.Second, func() { res, err = fn() }); !ok {
 		h.line("MONITOR C18 closure with real seams did not return (%v) case=r%d", el, id)
 		return
 	}
